@@ -503,7 +503,23 @@ impl Property for C07 {
             any::<u32>(),
             prop_oneof![1 => Just(0u8), 3 => Just(1u8), 2 => Just(2u8), 1 => Just(3u8)],
         )
-            .prop_map(|(comp, threads, pattern, ops, plan_seed, strength)| Case::S1 { comp: match comp { Comp::Lz4(_) => Comp::Lz4(1), Comp::Lzma(_) => Comp::Lzma(1), _ => Comp::Zstd(1) }, threads, pattern, ops, plan_seed, strength })
+            .prop_map(|(comp, threads, pattern, ops, plan_seed, strength)| Case::S1 {
+                // one case in five reads an uncompressed, file-backed pack (concurrent FileSource reads)
+                comp: if plan_seed % 5 == 0 {
+                    Comp::None
+                } else {
+                    match comp {
+                        Comp::Lz4(_) => Comp::Lz4(1),
+                        Comp::Lzma(_) => Comp::Lzma(1),
+                        _ => Comp::Zstd(1),
+                    }
+                },
+                threads,
+                pattern,
+                ops,
+                plan_seed,
+                strength,
+            })
             .boxed()
     }
 
@@ -551,7 +567,7 @@ impl Property for C07 {
     }
 
     fn required_classes(_tier: Tier) -> Vec<&'static str> {
-        vec!["S1", "S2", "reader-waited-for-publication", "pattern:Sweep", "pattern:Same", "threads>=8", "comp:lz4", "comp:lzma", "comp:zstd", "touched>40-clusters"]
+        vec!["S1", "S2", "reader-waited-for-publication", "pattern:Sweep", "pattern:Same", "threads>=8", "comp:lz4", "comp:lzma", "comp:zstd", "comp:none", "touched>40-clusters"]
     }
 
     fn max_shrink_iters() -> u32 {
